@@ -17,7 +17,7 @@ pub static DEF: PropertyDef = PropertyDef {
            look-ahead-safe, bound not-safe, unbound without fallbacks. Oracles over the recorded history (every peer call and every delivered line stamped with the global event \
            sequence number): printed value == want in every mode (argument order, value used where the call stands); safe: never refused, at least one call for every site \
            whose post line was delivered, transcript identical to the fallback run; not-safe: exactly one call per executed site (none twice), never before its pre line was \
-           delivered, string/choice-text sites refused with an error and never reaching the peer; unbound without fallback: first continue returns Err, no panic; bound, then unbound by the host at a \
+           delivered, string/choice-text sites refused with an error and never reaching the peer; unbound without fallback: first continue returns Err naming every external the story calls anywhere, no panic; bound, then unbound by the host at a \
            seeded point of the history with fallbacks allowed (program as generated, and with its Ink fallbacks removed): no host call after the unbind, Ok or Err, never a panic. \
            Non-trivial = at least one site's call was committed under the safe binding; distinct = hash of program+history.",
     assumptions: &["external peers are pure functions of their arguments (what look-ahead-safe means)"],
@@ -177,7 +177,19 @@ fn execute(case: &Case) -> CaseResult {
     if let Ok(mut x) = Host::new(prog, &mk(vec![], false)) {
         let r = x.apply(&Op::Continue);
         match &r {
-            Res::Err(..) => res.stats.inc("fault.external.unbound_rejected"),
+            Res::Err(_, msg) => {
+                res.stats.inc("fault.external.unbound_rejected");
+                // validation looks at the whole story: every external that is called anywhere is reported
+                if msg.contains("Missing function binding") {
+                    let reported: Vec<&str> = msg.split(|c: char| !(c.is_alphanumeric() || c == '_')).collect();
+                    for n in &names {
+                        if !reported.contains(&n.as_str()) {
+                            fail!("external:validation-incomplete", "validate_external_bindings", "an unbound external that the story calls is not reported", "first continue, unbound without fallbacks".to_string(), format!("'{n}' among the missing bindings"), msg.chars().take(200).collect::<String>());
+                        }
+                    }
+                    res.stats.inc("fault.external.validation_complete_checked");
+                }
+            }
             Res::Panic(st, m) => fail!("panic", st, &crate::host::norm_msg(m), "first continue, unbound without fallbacks".to_string(), "Err".to_string(), r.brief()),
             Res::Ok(_) => fail!("external:unbound", "validate_external_bindings", "continue succeeded with unbound externals and fallbacks disabled", "first continue".to_string(), "Err".to_string(), r.brief()),
             _ => {}
